@@ -20,4 +20,4 @@ def check(repo, rep, tier):
     re_.rule_program_keys(cm, rep, 'C05.F1')
     rq.rule_values_never_inspected(em, rep, 'C05.F2')
     rq.rule_combine_order(em, rep, 'C05.F3')
-    rc.rule_compiler_bounded(cm, rep, 'C05.R2', depth=3, scope=3 if tier == 'thorough' else 2)
+    rc.rule_compiler_bounded(cm, rep, 'C05.R2', depth=3, scope=3 if tier == 'thorough' else 2, combs=4 if tier == 'thorough' else 0)
